@@ -299,6 +299,30 @@ def argument_forms(chk, rng):
     return n
 
 
+def partial_heights(chk):
+    """only one of (stretch, domain_height) given: the other keeps its default (2 zm) - the grid still runs from z0 through
+    zm at index n to the domain height"""
+    from bldfm.pbl_model import vertical_profiles
+
+    n = 0
+    for closure in ("MOST", "CONSTANT"):
+        for nlay in (4, 12, 33):
+            for zm in (3.0, 10.0):
+                for kwh, top in (({"stretch": 3.0 * zm}, 2.0 * zm), ({"stretch": 5.0 * zm}, 2.0 * zm), ({"domain_height": 2.6 * zm}, 2.6 * zm), ({"domain_height": 1.4 * zm}, 1.4 * zm)):
+                    z, prof = vertical_profiles(nlay, zm, (2.0, -1.5), z0=0.05 * zm, mol=-80.0, closure=closure, **kwh)
+                    z = np.asarray(z, dtype=float).ravel()
+                    n += 1
+                    sc = {"kind": "partial_heights", "closure": closure, "n": nlay, "zm": zm, "arguments": kwh}
+                    chk.case(json.dumps(sc, sort_keys=True))
+                    if not (np.isfinite(z).all() and (np.diff(z) > 0).all() and len(z) > nlay and abs(z[nlay] - zm) <= 1e-9 * zm and abs(z[0] - 0.05 * zm) <= 1e-9 * zm):
+                        chk.violation("with %s the grid is not a finite increasing grid from z0 through zm at index %d (%d nodes)" % (kwh, nlay, len(z)), sc, klass={"check": "partial_heights_grid"})
+                        continue
+                    if z[-1] < top * (1 - 1e-9) or (len(z) >= 2 and z[-2] >= top * (1 + 1e-9) and len(z) - 2 > nlay):
+                        chk.violation("with %s (the other height at its default) the grid ends at %.6g / %.6g, the domain height is %.6g" % (kwh, z[-2] if len(z) > 1 else float("nan"), z[-1], top), sc,
+                                      klass={"check": "partial_heights_top"})
+    return n
+
+
 def interface_levels(chk):
     """interface.py reads level index nz as the measurement height: for every tower of a configuration, in one process"""
     from bldfm import parse_config_dict, run_bldfm_single
@@ -355,6 +379,7 @@ def main():
     chk.extra["calls"] = calls
     chk.extra["stability_function_points"] = stability_functions(chk, t)
     chk.extra["argument_form_calls"] = argument_forms(chk, rng)
+    chk.extra["partial_height_arguments"] = partial_heights(chk)
     chk.extra["interface_towers"] = interface_levels(chk)
     chk.traces = len(pick)
     chk.sample(em[0])
